@@ -153,6 +153,37 @@ func init() {
 				c.Fail("C25e/ExtractConsumerAddress/address=ExtractSignerAddress(session)", c.P.Pos(f.Pos()), why)
 			}
 		}
+		c.Rule("C25f every verification recovers: each successful return of sigs.RecoverPubKey has passed the RecoverCompact call over this object's signature and the hash of this object's DataToSign, and the returned key is that call's result (a key remembered under the signature bytes alone is returned for any object carrying those bytes)")
+		if rp := c.Fn("utils/sigs.RecoverPubKey"); rp != nil {
+			isRecover := func(in ssa.Instruction) bool {
+				call := ir.CallOf(in)
+				if call == nil || !strings.HasSuffix(ir.CalleeName(call), "ecdsa.RecoverCompact") || len(call.Args) != 2 {
+					return false
+				}
+				sig, msg := ir.Desc(call.Args[0]), ir.DescN(call.Args[1], 8)
+				return strings.HasPrefix(sig, "invoke(utils/sigs.Signable.GetSignature)(param#0") && strings.Contains(msg, "invoke(utils/sigs.Signable.DataToSign)(param#0")
+			}
+			r := c.MustPass(rp, nil, isRecover, func(ret *ssa.Return) bool { return !IsFailureReturn(ret) })
+			keyOK := true
+			for _, s := range c.SuccessReturns(rp) {
+				for _, leaf := range phiLeaves(RetVal(s.Instr.(*ssa.Return), 0)) {
+					a := allocOf(leaf)
+					if a == nil {
+						keyOK = false
+						continue
+					}
+					v, has := structFieldStores(a)["Key"]
+					if !has || !strings.Contains(ir.DescN(v, 8), "ecdsa.RecoverCompact)(") {
+						keyOK = false
+					}
+				}
+			}
+			if r.OK && keyOK {
+				c.OK("C25f/RecoverPubKey/success=>recovered-from-this-object", c.P.Pos(rp.Pos()), "RecoverCompact(GetSignature(), hash^n(DataToSign())) on every successful path; returned key is its result")
+			} else {
+				c.Fail("C25f/RecoverPubKey/success=>recovered-from-this-object", c.P.Pos(rp.Pos()), "RecoverPubKey can succeed without recovering the key from this object's signature over this object's signed bytes ("+r.Witness+"): a signature no longer binds the fields it was made over")
+			}
+		}
 		c.NotCovered("the iff at the cryptographic level (secp256k1 recovery, sha256); proto text rendering is assumed injective on messages")
 	})
 
